@@ -96,26 +96,24 @@ def rule_fields(ctx):
     if not waited:
         raise AnalysisError("anchor=session wait set (asyncio.wait(<pending> | <conn>.extra_workers)) not found")
     wanted = {src(x) for x in ast.walk(waited[0]) if isinstance(x, (ast.Name, ast.Attribute)) and not isinstance(p.parent.get(x), ast.Attribute)}
+    want_all = {"all:" + w for w in wanted}
     cancel_ok = False
-    collected = None
     for s in fin:
         for l in ast.walk(s):
             if isinstance(l, ast.For) and isinstance(l.target, ast.Name):
-                names = {src(x) for x in ast.walk(l.iter) if isinstance(x, (ast.Name, ast.Attribute)) and not isinstance(p.parent.get(x), ast.Attribute)}
                 cancels = any(is_method_call(c, "cancel") and isinstance(c.func.value, ast.Name) and c.func.value.id == l.target.id for c in ast.walk(l))
-                if cancels and wanted <= names:
+                if cancels and want_all <= elements_of(p, d, l.iter):
                     cancel_ok = True
-                    for c in ast.walk(l):
-                        if isinstance(c, ast.Call) and is_method_call(c, "append") and isinstance(c.func.value, ast.Name) and c.args and src(c.args[0]) == l.target.id:
-                            collected = c.func.value.id
     ctx.ob("C12.FIELDS", tr, f"every task of the session's wait set ({sorted(wanted)}) is cancelled by the cleanup", cancel_ok,
            "dispatcher cleanup: tasks cancelled - missing (not every task of pending | extra_workers is cancelled)", construct="finally:tasks cancelled", function=p.qualname(d))
     awaited = False
     for s in fin:
         for a in ast.walk(s):
             if isinstance(a, ast.Await) and isinstance(a.value, ast.Call) and (dotted(a.value.func) or "").split(".")[-1] in ("wait", "gather"):
-                args = {x.id for z in a.value.args for x in ast.walk(z) if isinstance(x, ast.Name)}
-                if collected and collected in args:
+                got = set()
+                for z in a.value.args:
+                    got |= elements_of(p, d, z)
+                if want_all <= got:
                     awaited = True
     ctx.ob("C12.FIELDS", tr, "the cancelled tasks are awaited before the dispatcher returns", awaited,
            "dispatcher cleanup: cancelled tasks awaited - missing (tasks may still run after the session is gone)", construct="finally:cancelled tasks awaited", function=p.qualname(d))
@@ -297,19 +295,25 @@ def rule_close(ctx):
     closes = any(is_method_call(c, "close", "server") for c in walk_no_nested(cl) if isinstance(c, ast.Call))
     ctx.ob("C12.CLOSE", cl, "the listening server is closed", closes, "Server.close: listening server closed - missing", construct="close:listening server closed")
     loop_ok = False
-    coll = None
     for l in walk_no_nested(cl):
-        if isinstance(l, ast.For) and any(isinstance(x, ast.Attribute) and x.attr == "connections" for x in ast.walk(l.iter)):
-            canc = [c for c in ast.walk(l) if isinstance(c, ast.Call) and is_method_call(c, "cancel") and last_attr(c.func.value) == "_dispatcher"]
-            uncond = canc and not any(isinstance(x, (ast.If, ast.Break, ast.Continue)) for x in ast.walk(l))
-            if uncond:
+        if isinstance(l, ast.For) and isinstance(l.target, ast.Name):
+            els = elements_of(p, cl, l.iter)
+            over_conns = any(e.startswith("all:") and "connections" in e for e in els)
+            over_disp = any(e.startswith(("each:", "item:")) and "_dispatcher" in e and "connections" in e for e in els)
+            canc = [c for c in ast.walk(l) if isinstance(c, ast.Call) and is_method_call(c, "cancel")
+                    and ((over_conns and last_attr(c.func.value) == "_dispatcher") or (over_disp and src(c.func.value) == l.target.id))]
+            if canc and not any(isinstance(x, (ast.If, ast.Break, ast.Continue, ast.Try)) for x in ast.walk(l)):
                 loop_ok = True
-            for c in ast.walk(l):
-                if isinstance(c, ast.Call) and is_method_call(c, "append") and c.args and last_attr(c.args[0]) == "_dispatcher":
-                    coll = src(c.func.value)
     ctx.ob("C12.CLOSE", cl, "every dispatcher in the connection table is cancelled", loop_ok, "Server.close: dispatchers cancelled - missing or conditional", construct="close:dispatchers cancelled")
-    awaited = any(isinstance(a, ast.Await) and isinstance(a.value, ast.Call) and (dotted(a.value.func) or "").split(".")[-1] in ("wait", "gather")
-                  and coll and any(src(x) == coll for z in a.value.args for x in ast.walk(z)) for a in walk_no_nested(cl))
+    awaited = False
+    for a in walk_no_nested(cl):
+        if isinstance(a, ast.Await) and isinstance(a.value, ast.Call) and (dotted(a.value.func) or "").split(".")[-1] in ("wait", "gather"):
+            got = set()
+            for z in a.value.args:
+                got |= elements_of(p, cl, z)
+            # the dispatcher of every table entry: a comprehension over the table / an unconditional append inside a loop over it
+            if any(e.startswith("each:") and "_dispatcher" in e and "connections" in e for e in got):
+                awaited = True
     ctx.ob("C12.CLOSE", cl, "the cancelled dispatchers are awaited", awaited, "Server.close: dispatchers awaited - missing", construct="close:dispatchers awaited")
     wc = any(isinstance(c, ast.Call) and is_method_call(c, "wait_closed") for c in walk_no_nested(cl))
     ctx.ob("C12.CLOSE", cl, "close waits for the listening server to be closed (wait_closed)", wc, "Server.close no longer waits for the listener to close", construct="close:wait_closed")
